@@ -1658,7 +1658,8 @@ func c10Round3(c *core.Ctx) {
 						continue
 					}
 					// on the error edge: no success exit and no further attempt
-					found, w, hit := reachFromBlock(fn, b, nil, nil, func(in ssa.Instruction) bool {
+					qq := &core.Q{Fn: fn, AssumeNil: map[ssa.Value]bool{v: false}}
+					found, w, hit := qq.ReachFromBlock(b, func(in ssa.Instruction) bool {
 						if r, ok := in.(*ssa.Return); ok {
 							if len(r.Results) == 0 {
 								return false
